@@ -95,11 +95,12 @@ Lemma step_dst_lookup src e d x :
   match e with
   | Put o true => if list_N_eqb x o then (match lookup o src with Some b => Some b | None => lookup x d end)
                   else lookup x d
+  | Partial o b => if list_N_eqb x o then Some b else lookup x d
   | Drop o => if list_N_eqb x o then None else lookup x d
   | _ => lookup x d
   end.
 Proof.
-  destruct e as [o [|]|o|d' fs|]; simpl; auto.
+  destruct e as [o [|]|o pb|o|d' fs|]; simpl; auto.
   - destruct (lookup o src) eqn:E.
     + apply lookup_put.
     + now destruct (list_N_eqb x o).
@@ -111,14 +112,16 @@ Proof. revert d. induction a as [|e r IH]; simpl; auto. Qed.
 
 (* where the bytes of an object in the destination come from *)
 Lemma apply_dst_origin src evs : forall d x b,
-  lookup x (apply_dst src evs d) = Some b -> lookup x d = Some b \/ lookup x src = Some b.
+  lookup x (apply_dst src evs d) = Some b ->
+  lookup x d = Some b \/ lookup x src = Some b \/ In (Partial x b) evs.
 Proof.
   induction evs as [|e r IH]; simpl; intros d x b H; auto.
-  apply IH in H. destruct H as [H|H]; auto.
+  apply IH in H. destruct H as [H|[H|H]]; auto.
   rewrite step_dst_lookup in H.
-  destruct e as [o [|]|o|d' fs|]; auto.
+  destruct e as [o [|]|o pb|o|d' fs|]; auto.
   - destruct (list_N_eqb x o) eqn:E; auto. apply eqb_eq in E. subst o.
     destruct (lookup x src); auto.
+  - destruct (list_N_eqb x o) eqn:E; auto. apply eqb_eq in E. subst o. inversion H; subst. auto.
   - destruct (list_N_eqb x o); auto. discriminate.
 Qed.
 
@@ -130,15 +133,16 @@ Proof.
   apply IH; [intros o Ho; apply Hd; auto|].
   apply has_lookup in H. destruct H as [b H]. apply has_lookup.
   rewrite step_dst_lookup.
-  destruct e as [o [|]|o|d' fs|]; eauto.
+  destruct e as [o [|]|o pb|o|d' fs|]; eauto.
   - destruct (list_N_eqb f o); eauto. destruct (lookup o src); eauto.
+  - destruct (list_N_eqb f o); eauto.
   - destruct (list_N_eqb f o) eqn:E; eauto. apply eqb_eq in E. subst o.
     exfalso. apply (Hd f); auto.
 Qed.
 
 (* an untouched object keeps its binding *)
 Definition ev_oid (e : event) : option oid :=
-  match e with Put o _ => Some o | Drop o => Some o | _ => None end.
+  match e with Put o _ => Some o | Partial o _ => Some o | Drop o => Some o | _ => None end.
 Lemma apply_dst_untouched src evs : forall d x,
   (forall e, In e evs -> ev_oid e <> Some x) -> lookup x (apply_dst src evs d) = lookup x d.
 Proof.
@@ -146,7 +150,8 @@ Proof.
   rewrite IH by (intros e' He'; apply H; auto).
   rewrite step_dst_lookup.
   assert (He : ev_oid e <> Some x) by (apply H; auto).
-  destruct e as [o [|]|o|d' fs|]; auto; simpl in He.
+  destruct e as [o [|]|o pb|o|d' fs|]; auto; simpl in He.
+  - destruct (list_N_eqb x o) eqn:E; auto. apply eqb_eq in E. congruence.
   - destruct (list_N_eqb x o) eqn:E; auto. apply eqb_eq in E. congruence.
   - destruct (list_N_eqb x o) eqn:E; auto. apply eqb_eq in E. congruence.
 Qed.
@@ -157,7 +162,7 @@ Proof. induction evs as [|e r IH]; simpl; intros w; auto. rewrite IH. now destru
 Lemma apply_events_dst evs : forall w, w_dst (apply_events evs w) = apply_dst (w_src w) evs (w_dst w).
 Proof.
   induction evs as [|e r IH]; simpl; intros w; auto. rewrite IH.
-  destruct e as [o ok|o|d' fs|]; simpl; auto.
+  destruct e as [o ok|o pb|o|d' fs|]; simpl; auto.
 Qed.
 
 (* ---- directory listings, closure ---- *)
@@ -185,6 +190,7 @@ Definition ev_ok (i : t_in) (d : store) (e : event) : Prop :=
   match e with
   | Put o true => S -> forall l f, listing (t_parse i) (t_src i) o = Some l -> In f l ->
                               has d f = true /\ stable i f = true
+  | Partial o b => S -> is_dir_oid o = true -> t_parse i b = None   (* a truncated listing does not parse *)
   | Drop o => stable i o = false
   | _ => True
   end.
@@ -206,15 +212,16 @@ Proof.
   assert (Hmono : forall x, has d x = true -> x <> match e with Drop o => o | _ => x ++ [0] end ->
                             has (step_dst (t_src i) e d) x = true).
   { intros x Hx Hne. apply has_lookup in Hx. destruct Hx as [bx Hx]. apply has_lookup.
-    rewrite step_dst_lookup. destruct e as [o [|]|o|d' fs|]; eauto.
+    rewrite step_dst_lookup. destruct e as [o [|]|o pb|o|d' fs|]; eauto.
     - destruct (list_N_eqb x o); eauto. destruct (lookup o (t_src i)); eauto.
+    - destruct (list_N_eqb x o); eauto.
     - destruct (list_N_eqb x o) eqn:E; eauto. apply eqb_eq in E. congruence. }
   assert (Hold : (match lookup D d with Some b => t_parse i b | None => None end) = Some l ->
                  has d f = true /\ stable i f = true).
   { intros H. apply (HI D l f); auto. unfold listing. now rewrite ED. }
   assert (Hne : forall x : oid, x <> x ++ [0]).
   { intros x E. apply (f_equal (@length N)) in E. rewrite app_length in E. simpl in E. lia. }
-  destruct e as [o [|]|o|d' fs|]; simpl in He.
+  destruct e as [o [|]|o pb|o|d' fs|]; simpl in He.
   - destruct (list_N_eqb D o) eqn:E.
     + apply eqb_eq in E. subst o. destruct (lookup D (t_src i)) as [b|] eqn:EL.
       * assert (HL : listing (t_parse i) (t_src i) D = Some l) by (unfold listing; now rewrite ED, EL).
@@ -222,6 +229,9 @@ Proof.
       * destruct (Hold HD) as [H1 H2]. split; auto.
     + destruct (Hold HD) as [H1 H2]. split; auto.
   - destruct (Hold HD) as [H1 H2]. split; auto.
+  - destruct (list_N_eqb D o) eqn:E.
+    + apply eqb_eq in E. subst o. rewrite (He HS ED) in HD. discriminate.
+    + destruct (Hold HD) as [H1 H2]. split; auto.
   - destruct (list_N_eqb D o) eqn:E; [discriminate|].
     destruct (Hold HD) as [H1 H2]. split; auto. apply Hmono; auto.
     intros ->. congruence.
@@ -253,8 +263,9 @@ Proof.
   - simpl in H1. congruence.
   - apply (IH Ho (step_dst (t_src i) e d)); auto.
     apply has_lookup in Hh. destruct Hh as [b Hb]. apply has_lookup. rewrite step_dst_lookup.
-    destruct e as [o [|]|o|d' fs|]; eauto.
+    destruct e as [o [|]|o pb|o|d' fs|]; eauto.
     + destruct (list_N_eqb f o); eauto. destruct (lookup o (t_src i)); eauto.
+    + destruct (list_N_eqb f o); eauto.
     + simpl in H1. destruct (list_N_eqb f o) eqn:E; eauto. apply eqb_eq in E. subst o. congruence.
 Qed.
 Lemma safe_Drop_unstable i evs : forall d o, safe i d evs -> In (Drop o) evs -> stable i o = false.
@@ -267,18 +278,20 @@ Qed.
 Lemma ev_ok_mono i d d' e :
   (forall x, has d x = true -> has d' x = true) -> ev_ok i d e -> ev_ok i d' e.
 Proof.
-  intros Hm. destruct e as [o [|]|o|dd fs|]; simpl; auto.
+  intros Hm. destruct e as [o [|]|o pb|o|dd fs|]; simpl; auto.
   intros H HS l f HL Hf. destruct (H HS l f HL Hf). split; auto.
 Qed.
-Lemma put_mono src o ok d x : has d x = true -> has (step_dst src (Put o ok) d) x = true.
+Lemma attempt_mono i o d x : has d x = true -> has (step_dst (t_src i) (attempt i o) d) x = true.
 Proof.
   intros H. apply has_lookup in H. destruct H as [b H]. apply has_lookup. rewrite step_dst_lookup.
-  destruct ok; eauto. destruct (list_N_eqb x o); eauto. destruct (lookup o src); eauto.
+  unfold attempt. destruct (upload_ok i o).
+  - destruct (list_N_eqb x o); eauto. destruct (lookup o (t_src i)); eauto.
+  - destruct (part_written i o); eauto. destruct (list_N_eqb x o); eauto.
 Qed.
 
 (* one _add batch *)
 Lemma safe_add i batch d :
-  (forall o, In o (t_bord i batch) -> ev_ok i d (Put o (upload_ok i o))) ->
+  (forall o, In o (t_bord i batch) -> ev_ok i d (attempt i o)) ->
   (forall o, In o (t_bord i batch) -> dropped i o = true -> stable i o = false) ->
   safe i d (add_events i batch).
 Proof.
@@ -288,8 +301,8 @@ Proof.
     + apply HP; left; reflexivity.
     + apply IH.
       * intros o' H1 H2. apply HD; [right; exact H1|exact H2].
-      * intros o' Ho'. eapply ev_ok_mono; [|apply HP; right; exact Ho']. intros x. apply put_mono.
-  - generalize (apply_dst (t_src i) (map (fun o => Put o (upload_ok i o)) B) d). intros d'.
+      * intros o' Ho'. eapply ev_ok_mono; [|apply HP; right; exact Ho']. intros x. apply attempt_mono.
+  - generalize (apply_dst (t_src i) (map (attempt i) B) d). intros d'.
     assert (H : forall o, In o (filter (dropped i) B) -> stable i o = false).
     { intros o Ho. apply filter_In in Ho. destruct Ho. apply HD; auto. }
     revert d' H. induction (filter (dropped i) B) as [|o r IH]; simpl; intros d' H; auto.
@@ -304,26 +317,47 @@ Proof. unfold delivered. intros H. apply andb_true_iff in H. tauto. Qed.
 Lemma dropped_not_delivered i o : dropped i o = true -> delivered i o = false.
 Proof. unfold delivered. intros ->. apply andb_false_r. Qed.
 
+Lemma attempt_cases i x :
+  (attempt i x = Put x true /\ upload_ok i x = true) \/
+  (attempt i x = Partial x (t_trunc i x) /\ upload_ok i x = false /\ part_written i x = true) \/
+  (attempt i x = Put x false /\ upload_ok i x = false).
+Proof.
+  unfold attempt. destruct (upload_ok i x); auto. destruct (part_written i x); auto.
+Qed.
 Lemma add_events_In_Put i batch o ok :
   ord_ok (t_bord i) -> In (Put o ok) (add_events i batch) -> In o batch /\ ok = upload_ok i o.
 Proof.
   intros Ho H. unfold add_events in H. apply in_app_or in H. destruct H as [H|H].
-  - apply in_map_iff in H. destruct H as [x [E Hx]]. inversion E; subst. split; auto. now apply Ho.
+  - apply in_map_iff in H. destruct H as [x [E Hx]].
+    destruct (attempt_cases i x) as [[E1 E2]|[[E1 [E2 E3]]|[E1 E2]]]; rewrite E1 in E; inversion E; subst;
+      (split; [now apply Ho|auto]).
+  - apply in_map_iff in H. destruct H as [x [E Hx]]. discriminate.
+Qed.
+Lemma add_events_In_Partial i batch o b :
+  ord_ok (t_bord i) -> In (Partial o b) (add_events i batch) ->
+  In o batch /\ upload_ok i o = false /\ part_written i o = true.
+Proof.
+  intros Ho H. unfold add_events in H. apply in_app_or in H. destruct H as [H|H].
+  - apply in_map_iff in H. destruct H as [x [E Hx]].
+    destruct (attempt_cases i x) as [[E1 E2]|[[E1 [E2 E3]]|[E1 E2]]]; rewrite E1 in E; inversion E; subst.
+    split; [now apply Ho|auto].
   - apply in_map_iff in H. destruct H as [x [E Hx]]. discriminate.
 Qed.
 Lemma add_events_In_Drop i batch o :
   ord_ok (t_bord i) -> In (Drop o) (add_events i batch) -> In o batch /\ dropped i o = true.
 Proof.
   intros Ho H. unfold add_events in H. apply in_app_or in H. destruct H as [H|H].
-  - apply in_map_iff in H. destruct H as [x [E Hx]]. discriminate.
+  - apply in_map_iff in H. destruct H as [x [E Hx]].
+    destruct (attempt_cases i x) as [[E1 E2]|[[E1 [E2 E3]]|[E1 E2]]]; rewrite E1 in E; discriminate.
   - apply in_map_iff in H. destruct H as [x [E Hx]]. inversion E; subst.
     apply filter_In in Hx. destruct Hx. split; auto. now apply Ho.
 Qed.
 Lemma add_events_oid i batch e x :
   ord_ok (t_bord i) -> In e (add_events i batch) -> ev_oid e = Some x -> In x batch.
 Proof.
-  intros Ho H Hx. destruct e as [o ok|o|dd fs|]; simpl in Hx; try discriminate; inversion Hx; subst.
+  intros Ho H Hx. destruct e as [o ok|o pb|o|dd fs|]; simpl in Hx; try discriminate; inversion Hx; subst.
   - now apply add_events_In_Put in H.
+  - now apply add_events_In_Partial in H.
   - now apply add_events_In_Drop in H.
 Qed.
 Lemma add_failed_In i batch o :
@@ -344,8 +378,9 @@ Proof.
   - apply Ho in Hin. revert d. induction (t_bord i batch) as [|y r IH]; simpl; intros d; [contradiction|].
     destruct Hin as [->|Hin].
     + apply apply_dst_keeps.
-      * intros x Hx. apply in_map_iff in Hx. destruct Hx as [z [E _]]. discriminate.
-      * rewrite (delivered_upload _ _ Hd). simpl.
+      * intros x Hx. apply in_map_iff in Hx. destruct Hx as [z [E _]].
+        destruct (attempt_cases i z) as [[E1 E2]|[[E1 [E2 E3]]|[E1 E2]]]; rewrite E1 in E; discriminate.
+      * unfold attempt. rewrite (delivered_upload _ _ Hd). simpl.
         assert (Hs : has (t_src i) o = true).
         { unfold delivered, upload_ok in Hd. apply andb_true_iff in Hd. destruct Hd as [Hd _].
           apply andb_true_iff in Hd. tauto. }
